@@ -27,9 +27,9 @@ def fireOk (cfg : Cfg) (t : Track) (e : Ev) : Ob → Bool
       r.error == 0 && (respsOf res).contains r && ps.any (fun p => p.tp == r.tp && p.sids.contains sid)
     | _, _, _ => false
   | .fire sid .okNone =>
-    -- only with acks = 0, on the empty answer to a produce request, for a send that was in a request
-    cfg.acks == producerAckNotRequired &&
-      (match completionOf e with | some res => isEmptyResult res | none => false) && t.produced.contains sid
+    -- only with acks = 0, while an answer of the client to the produce request is handled (the empty
+    -- answer, or the failure that exhausts the retries of a batchmate), for a send that was in a request
+    cfg.acks == producerAckNotRequired && (completionOf e).isSome && t.produced.contains sid
   | .fire _ (.okExc _) => false     -- an exception object delivered as a SUCCESS value (F6)
   | _ => true
 
@@ -54,19 +54,22 @@ def payloadStep (pre : Snap) (t : Track) (s : Step) : Bool :=
 
 /-- "Fires": whenever no batch is in flight, every send that was dispatched has fired (given that
     the client accounted for every payload of every request, C07). -/
-def resolvedFiredStep (pre : Snap) (t : Track) (s : Step) : Bool :=
-  !(track pre t s).acct || !s.post.idle || s.post.outstanding.all (· ∈ s.post.queue)
+def resolvedFiredStep (cfg : Cfg) (pre : Snap) (t : Track) (s : Step) : Bool :=
+  -- (with acks = 0 there are no responses to account for: what is not reported failed was handed over)
+  !((track pre t s).acct || cfg.acks == producerAckNotRequired) || !s.post.idle ||
+    s.post.outstanding.all (· ∈ s.post.queue)
 
-/-- With acknowledgements disabled a send never fails for want of a response: the empty answer of
-    the client (request handed to the connection) is its success. -/
+/-- With acknowledgements disabled the client's empty answer (request handed to the connection) is
+    the send's success: no send fails with NoResponseError in such a step. -/
 def acks0Step (cfg : Cfg) (_pre : Snap) (_t : Track) (s : Step) : Bool :=
   cfg.acks != producerAckNotRequired ||
+    !(match completionOf s.ev with | some r => isEmptyResult r | none => false) ||
     s.obs.all (fun o => match o with | .fire _ (.err .noResponse) => false | _ => true)
 
 def atMostOnce (cfg : Cfg) (tr : List Step) : Bool := checkTrace cfg atMostOnceStep tr
 def acks0 (cfg : Cfg) (tr : List Step) : Bool := checkTrace cfg (acks0Step cfg) tr
 def successAcked (cfg : Cfg) (tr : List Step) : Bool := checkTrace cfg (successAckedStep cfg) tr
 def payloads (cfg : Cfg) (tr : List Step) : Bool := checkTrace cfg payloadStep tr
-def resolvedFired (cfg : Cfg) (tr : List Step) : Bool := checkTrace cfg resolvedFiredStep tr
+def resolvedFired (cfg : Cfg) (tr : List Step) : Bool := checkTrace cfg (resolvedFiredStep cfg) tr
 
 end Afkak.Monitor.C01
